@@ -2,5 +2,6 @@ SPECIFICATION Spec
 CONSTANTS N = 7 Complete = FALSE
 INVARIANT TypeOK
 INVARIANT DenseInv
+INVARIANT DenseAltInv
 INVARIANT CompleteInv
 CHECK_DEADLOCK FALSE
